@@ -2,8 +2,11 @@ package main
 
 import (
 	"encoding/json"
+	"sync"
+
 	"flag"
 	"fmt"
+	"golang.org/x/tools/go/ssa"
 	"os"
 	"path/filepath"
 	"sort"
@@ -187,6 +190,41 @@ func cmdCheck(args []string) {
 			all = append(all, verifyLemma(p, db, k))
 		}
 		scanResults = append(scanResults, runScans(p, db, id)...)
+		if id == "C09" {
+			entries, _ := lockfastEntries(p, db)
+			reach := map[string]bool{} // only functions that are themselves proved may be used as lockfast callees
+			for _, f := range entries {
+				reach[originKey(f)] = true
+			}
+			var todo []*ssa.Function
+			for _, f := range entries {
+				k := originKey(f)
+				if f := os.Getenv("LF_ONLY"); f != "" && !strings.Contains(k, f) {
+					continue
+				}
+				if why, ex := db.LockExempt[k]; ex {
+					trusted["structural entry point "+k+" is exempt from the lock rule: "+why] = true
+					continue
+				}
+				todo = append(todo, f)
+				funcsUnder[k+"#lockfast"] = true
+			}
+			// VC generation of the entry points is independent: run it in parallel
+			lres := make([]*FuncResult, len(todo))
+			var wg sync.WaitGroup
+			sem := make(chan struct{}, 12)
+			for i, f := range todo {
+				wg.Add(1)
+				sem <- struct{}{}
+				go func(i int, f *ssa.Function) {
+					defer wg.Done()
+					defer func() { <-sem }()
+					lres[i] = verifyLockfast(p, db, f, reach)
+				}(i, f)
+			}
+			wg.Wait()
+			all = append(all, lres...)
+		}
 	}
 	all = append(all, scanResults...)
 	opt := solveOpts{outDir: outDir, seed: seed, timeoutS: timeout, jobs: *jobs, confirm: *tier == "thorough"}
@@ -229,9 +267,12 @@ func cmdCheck(args []string) {
 				continue
 			}
 			nObl++
+			if os.Getenv("GOVC_SLOW") != "" && o.Ms > 3000 {
+				fmt.Fprintf(os.Stderr, "slow: %6dms %-8s %-8s %s [%s]\n", o.Ms, o.Result, o.Backend, o.Name, r.Tags)
+			}
 			if o.Result == "unsat" {
 				nDis++
-				byBackend[o.Backend]++
+				byBackend[strings.SplitN(o.Backend, "/", 2)[0]]++
 				if len(samples) < 12 && (o.Kind == "ensures" || o.Kind == "lemma" || o.Kind == "inv" || o.Kind == "scan") {
 					samples = append(samples, map[string]interface{}{"obligation": o.Name, "clause": o.Text, "result": o.Result, "backend": o.Backend, "ms": o.Ms, "build": r.Tags, "pos": o.Pos})
 				}
